@@ -50,10 +50,10 @@ func c17Max(tier string) int {
 }
 
 // slot kinds: own (own-line: // or /* */ or directive), eol (end of line: // or /* */), mid (inside an expression: /* */ only)
-var c17SlotOrder = []string{"header", "build", "pkgdoc", "pkgtrail", "pkgtrail2", "imp1doc", "imp1trail", "imp2doc", "imp2trail", "free1", "d1doc", "d1open", "d1in", "d1own", "d1trail", "d1trail0", "d1trail2", "free2", "d2doc", "d2own", "d2eol", "d2mid", "d2trail", "d2trail2", "free3", "d3doc", "d3trail", "eof"}
+var c17SlotOrder = []string{"header", "build", "pkgdoc", "pkgtrail", "pkgtrail2", "imp1doc", "imp1trail", "imp2doc", "imp2trail", "free1", "d1doc", "d1open", "d1in", "d1own", "d1trail", "d1trail0", "d1trail2", "free2", "d2doc", "d2own", "d2eol", "d2mid", "d2end", "d2trail", "d2trail2", "free3", "d3doc", "d3trail", "eof"}
 
 var c17SlotKind = map[string]string{"header": "own", "build": "build", "pkgdoc": "own", "pkgtrail": "eolpkg", "pkgtrail2": "eol2", "free1": "own", "d1doc": "own", "d1open": "eol", "d1in": "eol", "d1own": "own",
-	"imp1doc": "own", "imp1trail": "eol", "imp2doc": "own", "imp2trail": "eol", "d1trail": "eol", "d1trail0": "eol0", "d1trail2": "eol2", "d2trail2": "eol2", "free2": "own", "d2doc": "own", "d2own": "own", "d2eol": "eol", "d2mid": "mid", "d2trail": "eol", "free3": "own", "d3doc": "own", "d3trail": "eol", "eof": "own"}
+	"imp1doc": "own", "imp1trail": "eol", "imp2doc": "own", "imp2trail": "eol", "d1trail": "eol", "d1trail0": "eol0", "d1trail2": "eol2", "d2trail2": "eol2", "free2": "own", "d2doc": "own", "d2own": "own", "d2end": "own", "d2eol": "eol", "d2mid": "mid", "d2trail": "eol", "free3": "own", "d3doc": "own", "d3trail": "eol", "eof": "own"}
 
 func c17Render(slots map[string]string, sites string) string {
 	imps2 := strings.HasSuffix(sites, "/imps2") // the file has two import declarations, which the patch does not mention
@@ -125,7 +125,12 @@ func c17Render(slots map[string]string, sites string) string {
 	if imp {
 		call = "p.Foo(1)"
 	}
-	b.WriteString("func site() {\n\tpre()\n" + own("d2own", "\t") + "\t" + call + eol("d2eol") + "\n\tmid(" + mid + "2)\n}" + eol("d2trail") + "\n\n")
+	// a comment at the end of the site function's body, after a blank line (go/ast attributes it to what follows)
+	endOfBody := ""
+	if c, ok := slots["d2end"]; ok {
+		endOfBody = "\n\t" + c + "\n"
+	}
+	b.WriteString("func site() {\n\tpre()\n" + own("d2own", "\t") + "\t" + call + eol("d2eol") + "\n\tmid(" + mid + "2)\n" + endOfBody + "}" + eol("d2trail") + "\n\n")
 	blockD2 := b.String()
 	b.Reset()
 	switch {
